@@ -44,6 +44,7 @@ type c17Scenario struct {
 
 type c17Obs struct {
 	calls, retrans, sentBeforeCancel, sent int
+	failedAt                               int // which retransmission attempt returned an error (0 = none)
 	cancelled                              bool
 }
 
@@ -60,8 +61,18 @@ func c17Body(sc c17Scenario, obs *c17Obs) func() {
 			inner = WithStandardStrategy()
 		}
 		st := &c17Counting{inner: inner, obs: obs}
+		// one retransmission attempt may fail (publish error): the schedule is a schedule
+		// of attempts, a failed attempt must not derail the following ones
+		failAt := 0 // 0 = never, k = the k-th attempt fails
+		if sc.Strategy == "backoff" {
+			failAt = vsched.Choose(2, "retransmitErrAt")
+		}
 		ScheduleRetransmissions(ctx, &testutils.MockLogger{}, ticker, func() error {
 			obs.retrans++
+			if obs.retrans == failAt {
+				obs.failedAt = failAt
+				return fmt.Errorf("publish failed")
+			}
 			return nil
 		}, st)
 		// cancellation position: 0 = never, k = after k ticks were handed over
